@@ -23,6 +23,7 @@ def loopEnter (s : State) (g : FId) (v : Val) (sig : Nat) : State :=
       if refuseResume.contains fg.status then
         { s with halt := some (.done sigError (.str ("cannot resume fiber with status :" ++ statusName fg.status))) }
       else if sig = sigOk then contNoCheck (chainFuel s0) s0 [] g v
+      else if cancelRefusedRoot s0 g = true then { s with halt := some (.done sigError cancelRootMsg) }
       else
         match cancelTarget s0 g with
         | none => s0.stop .hang
